@@ -66,8 +66,17 @@ class Run:
     def drive(self, module, args=(), asan=False, timeout=3600, extra_env=None, check=True):
         """Run a driver module (python -m harness.drivers.X) against the freshly built optree."""
         cmd = [PY, '-m', module] + [str(a) for a in args]
-        p = subprocess.run(cmd, cwd=VERIF, env=self.pyenv(asan, extra_env), stdout=subprocess.PIPE, stderr=subprocess.PIPE,
-                           text=True, timeout=timeout)
+        try:
+            p = subprocess.run(cmd, cwd=VERIF, env=self.pyenv(asan, extra_env), stdout=subprocess.PIPE, stderr=subprocess.PIPE,
+                               text=True, timeout=timeout)
+        except subprocess.TimeoutExpired:
+            # a driver that does not come back is a finding about the code under test (non-termination), not a machinery failure
+            class _T:
+                returncode = -9
+                stdout = ''
+                stderr = f'timeout after {timeout}s'
+                timed_out = True
+            return _T()
         if check and p.returncode != 0:
             self.machinery(f'driver {module} failed rc={p.returncode}: {p.stderr[-2000:]}')
         return p
